@@ -68,6 +68,8 @@ type Member struct {
 	notifInFlight int
 	notifCount    int
 	notifAtClose  int
+	lastSet       [2]int // last assignment handed to SetInfo
+	handovers     int
 	phase         string          // open | closing | closed | opening (from the lifecycle callbacks)
 	hookScrape    map[string]bool // lifecycle callbacks inside which the application scrapes (C16)
 }
